@@ -130,3 +130,33 @@ package hh
 //@   requires ends: len(l.segments) > 0 ==> l.head == l.segments[0] && l.tail == l.segments[len(l.segments)-1]
 //@   loop 1 invariant ends: len(l.segments) > 0 && l.head == l.segments[0] && l.tail == l.segments[len(l.segments)-1]
 //@   ensures ends_kept: result == nil && len(l.segments) > 0 ==> l.head == l.segments[0] && l.tail == l.segments[len(l.segments)-1]
+
+// ---- C04: Advance discards the block at the head - only a block that was handed out may be discarded ----
+// SendWrite may call Advance only after Current handed it a block (delivered, permanently rejected or
+// undecodable). When Current reports io.EOF there is no such block; one may be appended before the next call
+// (SendWrite holds no queue lock in between), so that branch may only trim an exhausted head segment.
+//@ func (*queue).Advance
+//@   assumed
+//@   modifies queue.all, segment.all
+
+//@ func (*NodeProcessor).SendWrite
+//@   props C04
+//@   nosafety
+//@   ghost have_block bool = false
+//@   at after queue.Current#1: ghost have_block = callresult1 == nil
+//@   call queue.Advance#1 requires only_a_block_that_was_handed_out_is_discarded: have_block
+//@   call queue.Advance#2 requires only_a_block_that_was_handed_out_is_discarded: have_block
+//@   ghost send_failed bool = false
+//@   ghost retryable bool = false
+//@   at after WriteShardBinary#1: ghost send_failed = callresult0 != nil
+//@   at after hh.IsRetryable#1: ghost retryable = callresult0
+//@   call queue.Advance#2 requires a_block_that_may_be_retried_stays_queued: !(send_failed && retryable)
+//@   ensures a_retryable_failure_is_reported: send_failed && retryable ==> result1 != nil
+
+//@ func (*queue).SkipExhaustedHead
+//@   props C04
+//@   nosafety
+//@   ghost was_empty bool = false
+//@   at after segment.empty#1: ghost was_empty = callresult0
+//@   call queue.trimHead#1 requires only_an_exhausted_head_is_dropped: was_empty
+//@   call queue.trimHead#1 assume_callee_requires
